@@ -44,3 +44,32 @@ func init() {
 		mutant{Name: "benign-extract-helper", Prop: "C06", File: "interp/program.go", Old: "err = Panic{Value: r, Callers: pc[:n], Stack: debug.Stack()}", New: "p := Panic{Value: r, Callers: pc[:n], Stack: debug.Stack()}\n\t\t\terr = p", Benign: true},
 	)
 }
+
+func init() {
+	addMutants(
+		// ---- C10
+		mutant{Name: "execute-refresh-dropped", Prop: "C10", File: "interp/program.go", Old: "\tinterp.frame.setrunid(interp.runid())\n", New: "", Rule: "R10.1", Key: "Interpreter.Execute/refresh"},
+		mutant{Name: "execute-refresh-after-first-run", Prop: "C10", File: "interp/program.go", Old: "\tinterp.frame.setrunid(interp.runid())\n\tinterp.frame.mutex.Lock()\n\tinterp.resizeFrame()\n\tinterp.frame.mutex.Unlock()\n\n\t// Execute node closures.\n\tinterp.run(p.root, nil)\n", New: "\tinterp.frame.mutex.Lock()\n\tinterp.resizeFrame()\n\tinterp.frame.mutex.Unlock()\n\n\t// Execute node closures.\n\tinterp.run(p.root, nil)\n\tinterp.frame.setrunid(interp.runid())\n", Rule: "R10.1", Key: "Interpreter.Execute/refresh"},
+		mutant{Name: "importsrc-refresh-dropped", Prop: "C10", File: "interp/src.go", Old: "\tinterp.frame.setrunid(interp.runid())\n", New: "", Rule: "R10.1", Key: "Interpreter.importSrc/refresh"},
+
+		// ---- C12
+		mutant{Name: "execute-despite-compile-error", Prop: "C12", File: "interp/interp.go", Old: "\tprog, err := interp.compileSrc(src, name, inc)\n\tif err != nil {\n\t\treturn res, err\n\t}\n", New: "\tprog, err := interp.compileSrc(src, name, inc)\n\tif err != nil && prog == nil {\n\t\treturn res, err\n\t}\n", Rule: "R12.1", Key: "eval"},
+		mutant{Name: "typecheck-error-dropped", Prop: "C12", File: "interp/cfg.go", Old: "\t\t\terr = check.index(n.child[1], l)\n", New: "\t\t\tcheck.index(n.child[1], l)\n", Rule: "R12.3", Key: "implicit-discard:typecheck.index"},
+		mutant{Name: "typecheck-error-blanked", Prop: "C12", File: "interp/cfg.go", Old: "\t\t\terr = check.index(n.child[1], l)\n", New: "\t\t\t_ = check.index(n.child[1], l)\n", Rule: "R12.3", Key: "discard:typecheck.index"},
+		mutant{Name: "rule-unwired", Prop: "C12", File: "interp/cfg.go", Old: "\t\t\t\terr = check.starExpr(n.child[0])\n", New: "", Rule: "R12.4", Key: "typecheck.starExpr/wired"},
+	)
+}
+
+func init() {
+	addMutants(
+		mutant{Name: "run-frame-takes-current-id", Prop: "C09", File: "interp/run.go", Old: "f = newFrame(cf, len(n.types), cf.runid())", New: "f = newFrame(cf, len(n.types), interp.runid())", Rule: "R09.2", Key: "(*Interpreter).run/newFrame"},
+	)
+}
+
+func init() {
+	addMutants(
+		mutant{Name: "stop-close-before-advance", Prop: "C09", File: "interp/interp.go", Old: "\tatomic.AddUint64(&interp.id, 1)\n\tclose(interp.done)", New: "\tclose(interp.done)\n\tatomic.AddUint64(&interp.id, 1)", Rule: "R09.5", Key: "stop/order"},
+		mutant{Name: "benign-stop-local-done", Prop: "C09", File: "interp/interp.go", Old: "\tatomic.AddUint64(&interp.id, 1)\n\tclose(interp.done)", New: "\tatomic.AddUint64(&interp.id, 1)\n\tdone := interp.done\n\tclose(done)", Benign: true},
+		mutant{Name: "use-adopts-caller-map", Prop: "C08", File: "interp/use.go", Old: "\t\t\tinterp.binPkg[importPath] = make(map[string]reflect.Value)\n", New: "\t\t\tinterp.binPkg[importPath] = v\n", Rule: "R08.4", Key: "Use/binPkg-store"},
+	)
+}
